@@ -208,8 +208,10 @@ static Built build(const std::vector<Tok> &t, uint32_t sepseed, bool final_nl) {
         b.el.push_back(line);
         if (i + 1 < t.size()) {
             if (t[i].glue) continue;
-            bool nl = t[i].nl_after || t[i + 1].nl_before || t[i + 1].s.empty() || t[i + 1].s[0] == ';' || col > 300 || mix(sepseed, (uint32_t) i) % 100 >= 35;
-            put(nl ? "\n" : " ");
+            uint32_t r = mix(sepseed, (uint32_t) i) % 100;
+            if (t[i].nl_after || t[i + 1].nl_before) put("\n");                      // layout fixed by the planter
+            else if (t[i + 1].s.empty() || t[i + 1].s[0] == ';' || col > 300) put(r < 80 ? "\n" : r < 90 ? "\n\n" : " # c ; [ {\n");   // a text field opens at the start of a line
+            else put(r < 50 ? "\n" : r < 80 ? " " : r < 85 ? "\t" : r < 90 ? "  " : r < 95 ? "\n\n" : "\t#_c 'data_\n");
         }
     }
     if (final_nl && !(t.empty())) put("\n");
@@ -606,7 +608,7 @@ static bool p_dup_loop_name(Work &W, Env &E, Plan &P, bool same_header) {
 }
 // split the contents of container c over two containers with the same code (the second under a case variant)
 static Container split_off(Container &c) {
-    Container s; s.code = g::randcase(c.code, (uint32_t) *g::range(0, 0x3fffffff));
+    Container s; s.code = name_variant(c.code);
     std::vector<Loop> keep;
     for (auto &l : c.loops) {
         if (l.is_scalar()) {
@@ -820,6 +822,7 @@ static bool p_missing_space(Work &W, Env &E, Plan &P) {
     if (c.empty()) return false;
     int i = pick(c); const Tok &a = W.R.t[(size_t) i], &b = W.R.t[(size_t) i + 1];
     std::string variant;
+    bool comment = *g::chance(15);   // 'abc'#comment : a comment cannot start a white-space run
     if (a.kind == T_CLOSE) variant = "bracket+x";
     else if ((a.style == S_BARE || a.style == S_NONE) && b.kind == T_OPEN && b.keylen == 0 && *g::chance(70)) variant = "bare+open";   // abc[ ... : the bracket ends the bare word
     else {
@@ -833,7 +836,8 @@ static bool p_missing_space(Work &W, Env &E, Plan &P) {
             variant = "quoted+x";
         } else variant = a.style == S_TEXT ? "textfield+x" : (a.style == S_TSQ || a.style == S_TDQ) ? "triple+x" : "quoted+x";
     }
-    P.toks[(size_t) i].glue = true; P.toks[(size_t) i].nl_after = false;
+    if (comment && variant != "bare+open") { P.toks[(size_t) i].s += "#comment"; P.toks[(size_t) i].nl_after = true; variant += "+comment"; }
+    else { P.toks[(size_t) i].glue = true; P.toks[(size_t) i].nl_after = false; }
     P.first = {CIF_MISSING_SPACE}; P.lo_tok = i; P.lo_mode = 1; P.hi_tok = i + 1;
     // abc[ : the one missing blank is noticed twice, by the bare-word scan that stops at the bracket and by the start of the next token.  The statement
     // does not limit how often a defect is reported: a repeated CIF_MISSING_SPACE is accepted for this variant.
@@ -953,13 +957,14 @@ static bool p_misquoted_key(Work &W, Env &E, Plan &P) {
 }
 // bare data_ / stop_ / global_  ->  CIF_RESERVED_WORD, dropped
 static bool p_reserved_word(Work &W, Env &E, Plan &P) {
-    if (*g::chance(30)) ensure_composite(W.h, E, 0, false);
+    if (*g::chance(35)) ensure_composite(W.h, E, -1, false);
     if (!start(W, E, P)) return false;
     std::vector<int> at; for (auto &b : boundaries(W.R)) at.push_back(b.at);
     auto lb = loop_body_points(W.R);
     std::vector<int> le; for (size_t i = 0; i < W.R.t.size(); i++) { const Tok &t = W.R.t[i]; if ((t.ctx == C_LIST && (t.kind == T_VAL || t.kind == T_OPEN)) || (t.kind == T_CLOSE && t.br == ']')) le.push_back((int) i); }
+    std::vector<int> te; for (size_t i = 0; i < W.R.t.size(); i++) { const Tok &t = W.R.t[i]; if ((t.ctx == C_TABLE && t.keylen > 0) || (t.kind == T_CLOSE && t.br == '}')) te.push_back((int) i); }
     int m = *g::range(0, 9); int a; bool inner = false;
-    if (m < 2 && !lb.empty()) { a = pick(lb); inner = true; } else if (m < 4 && !le.empty()) { a = pick(le); inner = true; } else a = pick(at);
+    if (m < 2 && !lb.empty()) { a = pick(lb); inner = true; } else if (m < 4 && !le.empty()) { a = pick(le); inner = true; } else if (m < 5 && !te.empty()) { a = pick(te); inner = true; P.pos.push_back("between-entries"); } else a = pick(at);
     const char *w = *rc::gen::element<const char *>("data_", "stop_", "global_");
     insert_toks(P.toks, a, {raw(randcase8(w, (uint32_t) *g::range(0, 127)))});
     P.first = {CIF_RESERVED_WORD}; P.lo_tok = a; P.hi_tok = a + 1;
@@ -1044,16 +1049,17 @@ static bool p_line_length(Work &W, Env &E, Plan &P, bool control) {
     int i;
     // F-KEYCOL (known): the column counter misses the colon of every table key, so an over-long line that holds a key is measured one character
     // short per key.  Excluded by construction: the long line holds no table key (the 2048 control is not affected: it must be silent either way).
-    bool avoid_key = !control && !gen_known(); bool dropped = false;
+    bool avoid_key = !control && !gen_known(); bool dropped = false, blanks = false;
     auto keyed_line = [&](const Tok &t) { return t.keylen > 0 && (variant == 0 ? t.s.find('\n') == std::string::npos : true); };
     if (variant == 0) {
-        std::vector<int> c0; for (int k = 1; k < (int) W.R.t.size(); k++) { if (avoid_key && keyed_line(W.R.t[(size_t) k])) { dropped = true; continue; } c0.push_back(k); }
+        std::vector<int> c0; for (int k = 0; k < (int) W.R.t.size(); k++) { if (avoid_key && keyed_line(W.R.t[(size_t) k])) { dropped = true; continue; } c0.push_back(k); }
         if (dropped) count_excluded("F-KEYCOL");
         i = pick(c0);
         if (keyed_line(W.R.t[(size_t) i])) P.pos.push_back("line-has-key");
         std::string &s = P.toks[(size_t) i].s; size_t nl = s.rfind('\n');
         int have = cplen8(nl == std::string::npos ? s : s.substr(nl + 1));
-        s += " #" + u8(filler(L - have - 2));
+        blanks = *g::chance(25);   // the line is made long by a comment, or by trailing blanks / tabs
+        if (blanks) { for (int k = have; k < L; k++) s += (k % 5 == 2) ? '\t' : ' '; } else s += " #" + u8(filler(L - have - 2));
         P.lo_tok = i; P.lo_mode = 1;
     } else {
         std::vector<int> c; for (int k : scalar_tokens(W.R)) { if (avoid_key && variant != 2 && keyed_line(W.R.t[(size_t) k])) { dropped = true; continue; } c.push_back(k); }
@@ -1091,7 +1097,7 @@ static bool p_line_length(Work &W, Env &E, Plan &P, bool control) {
     P.hi_tok = i + 1;
     if (!control) P.first = {CIF_OVERLENGTH_LINE};
     pos_labels(W.R, W.h, i, P);
-    P.pos.push_back(variant == 0 ? "in-comment" : variant == 1 ? "quoted-value" : variant == 2 ? "text-field-line" : "triple-quoted-line");
+    P.pos.push_back(variant == 0 ? (blanks ? "trailing-blanks" : "in-comment") : variant == 1 ? "quoted-value" : variant == 2 ? "text-field-line" : "triple-quoted-line");
     P.pos.push_back("len" + std::to_string(L));
     return true;
 }
@@ -1105,7 +1111,7 @@ static bool p_disallowed_char(Work &W, Env &E, Plan &P) {
     if (!start(W, E, P)) return false;
     int i;
     if (comment) {
-        i = *g::range(1, (int) W.R.t.size() - 1);
+        i = *g::range(0, (int) W.R.t.size() - 1);
         P.toks[(size_t) i].s += " # c" + u8(badu) + "x"; P.toks[(size_t) i].nl_after = true;
         P.lo_tok = i; P.lo_mode = 1; P.pos.push_back("in-comment");
     } else {
@@ -1113,14 +1119,15 @@ static bool p_disallowed_char(Work &W, Env &E, Plan &P) {
         i = pick(c);
         ustr pre = ustr(u"zq") + u16(std::to_string(*g::range(0, 99))) + (*g::chance(50) ? ustr(u" a") : ustr()), post = (*g::chance(50) ? ustr(u"b ") : ustr()) + u"qz";
         ustr T = pre + badu + post, Tc = pre + u"-" + post;
-        int style = *g::range(0, v1 ? 2 : 4);   // sq dq text tsq tdq
-        static const char *op[] = {"'", "\"", ";", "'''", "\"\"\""};
+        int style = *g::range(0, v1 ? 3 : 5);   // sq dq text bare tsq tdq
+        if (style == 3) { pre = filter_out(pre, u" "); post = filter_out(post, u" "); T = pre + badu + post; Tc = pre + u"-" + post; }
+        static const char *op[] = {"'", "\"", ";", "", "'''", "\"\"\""};
         std::string o = op[style], cl = style == 2 ? "\n;" : o;
-        replace_scalar(W, P, i, Value::chr(T, true), o + u8(Tc) + cl, o + u8(T) + cl);
-        *locate(P.control, W.R, W.R.t[(size_t) i]) = Value::chr(Tc, true);   // the control holds an ordinary character in its place
+        replace_scalar(W, P, i, Value::chr(T, style != 3), o + u8(Tc) + cl, o + u8(T) + cl);
+        *locate(P.control, W.R, W.R.t[(size_t) i]) = Value::chr(Tc, style != 3);   // the control holds an ordinary character in its place
         P.cn.mask = true; P.cn.pre = pre; P.cn.post = post; P.cn.full = T;
         P.lo_tok = i; P.lo_add = (style == 2 && W.R.t[(size_t) i].keylen > 0) ? 1 : 0;
-        P.pos.push_back(style < 2 ? "quoted-value" : style == 2 ? "text-field" : "triple-quoted");
+        P.pos.push_back(style < 2 ? "quoted-value" : style == 2 ? "text-field" : style == 3 ? "bare-value" : "triple-quoted");
     }
     P.hi_tok = i + 1;
     P.first = {CIF_DISALLOWED_CHAR};
